@@ -127,6 +127,32 @@ def payloadFaithful : Payload → OutPayload → Bool
   | .expo sumq dp, .native sumq' n => sumq == sumq' && expoFaithful dp n
   | _, _ => false
 
+/-- Exemplars: client_golang accepts an exemplar iff its label names are legal, its values valid UTF-8 and names+values
+hold ≤ 128 runes; one refused exemplar removes all exemplars of the series (never the series). Accepted: a counter
+shows the last exemplar; on a histogram every exposed exemplar is one of the SDK's, sits in the bucket its value belongs
+to (first upper bound ≥ value, else an appended +Inf bucket), every SDK exemplar's bucket shows one, and a bucket shows
+at most one. Gauges, non-monotonic sums and native histograms show none. -/
+def exemplarsFaithful (esc : Bytes → Bytes) (legacy : Bool) (typ : MType) (payload : Payload) (exs : List Exemplar)
+    (obs : List ExOut) : Bool :=
+  let labelsOf (e : Exemplar) := sortKV (exemplarLabels esc e)
+  let accepted := !exs.isEmpty && exs.all (fun e => exemplarOK legacy (exemplarLabels esc e))
+  match payload with
+  | .num _ =>
+    if typ == MType.counter && accepted then
+      match exs.getLast? with
+      | some e => obs == [⟨Slot.counter, e.q, labelsOf e⟩]
+      | none => false
+    else obs.isEmpty
+  | .hist _ _ bounds _ =>
+    if accepted then
+      obs.all (fun o => exs.any (fun e => o.q == e.q && o.labels == labelsOf e && o.slot == bucketSlot bounds e.q)) &&
+      exs.all (fun e => obs.any (fun o => o.slot == bucketSlot bounds e.q)) &&
+      (obs.filter (fun o => o.slot == Slot.inf)).length == (exs.filter (fun e => bucketSlot bounds e.q == Slot.inf)).length &&
+      (let slots := (obs.filter (fun o => o.slot != Slot.inf)).map (·.slot)
+       slots.eraseDups.length == slots.length)
+    else obs.isEmpty
+  | .expo _ _ => obs.isEmpty
+
 def effEsc (esc : Bytes → Bytes) (legacy : Bool) : Bytes → Bytes := if legacy then esc else id
 
 /-- labels every series of a scope carries besides its own attributes -/
@@ -216,7 +242,8 @@ def checkInst (esc : Bytes → Bytes) (sc : Scenario) (fams : List Family) (seen
       | some g =>
         let r := i.points.map (fun p =>
           match g.series.find? (seriesMatches esc sc s p.attrs) with
-          | some t => (payloadFaithful p.payload t.payload, 1, 0)
+          | some t => (payloadFaithful p.payload t.payload &&
+              exemplarsFaithful esc sc.cfg.legacy typ p.payload p.exemplars t.ex, 1, 0)
           | none => match p.payload with
             | .expo _ dp => (F28_applies dp, 0, 1)
             | _ => (false, 0, 0))
@@ -228,7 +255,8 @@ def checkInst (esc : Bytes → Bytes) (sc : Scenario) (fams : List Family) (seen
     | some g =>
       let r := i.points.map (fun p =>
         match g.series.find? (seriesMatches esc sc s p.attrs) with
-        | some t => (payloadFaithful p.payload t.payload, 1, 0)
+        | some t => (payloadFaithful p.payload t.payload &&
+              exemplarsFaithful esc sc.cfg.legacy typ p.payload p.exemplars t.ex, 1, 0)
         | none => match p.payload with
           | .expo _ dp => (F28_applies dp, 0, 1)
           | _ => (false, 0, 0))
